@@ -69,6 +69,27 @@ func findPool(c *Check, rule string) *poolInfo {
 		c.Bad(rule, "tasks-run-only-on-workers", fmt.Sprintf("a pool task is invoked at %d sites (%s): besides the worker loop, tasks can run on other goroutines, so more than num_workers commands can run at once", n, strings.Join(where, "; ")), "-")
 		return nil
 	}
+	// the worker is the goroutine root that (synchronously, possibly through helpers) invokes the task
+	for hop := 0; hop < 4; hop++ {
+		sites := c.G.CallersOf(p.Worker)
+		spawned, plain := false, 0
+		var caller *ssa.Function
+		for _, s := range sites {
+			if _, isGo := s.(*ssa.Go); isGo {
+				spawned = true
+			} else if _, isCall := s.(*ssa.Call); isCall {
+				plain++
+				if caller != nil && caller != s.Parent() {
+					plain = 99
+				}
+				caller = s.Parent()
+			}
+		}
+		if spawned || plain == 0 || plain == 99 || len(sites) != plain {
+			break
+		}
+		p.Worker = caller
+	}
 	p.New = anchor(c, rule, "worker", "", "NewTaskWorkerPool")
 	p.Run = anchor(c, rule, "worker", "TaskWorkerPool", "Run")
 	for _, s := range c.G.CallersOf(p.Worker) {
